@@ -365,7 +365,8 @@ def _at(sample, loc):
 
 
 def _strings(v):
-    if isinstance(v, str):
+    """scalar leaves that pydantic's date/time parsers may be handed (strings, and numbers taken as timestamps)"""
+    if isinstance(v, (str, int, float)) and not isinstance(v, bool):
         yield v
     elif isinstance(v, dict):
         for x in v.values():
